@@ -201,6 +201,11 @@ Check P_euler.
 Definition P_edir (st : list (Z * Z)) : list (Z * Z) := (0, 0)%Z :: (firstn (P_nvars - 1) (tl st) ++ repeat (0, 0)%Z (List.length P_consts))%list.
 Eval vm_compute in ("EULER", "P", let d := tan_outs P_prog P_n [0%nat] in map (fun st => (nth 0 (evalI 53%Z P_prog st) I.nai, nth 0 (evalI 53%Z d (st ++ P_edir st)%list) I.nai)) P_inputs).
 "#;
+            let mut body = body.to_string();
+            if tr.prog.instrs.len() > 4000 {
+                // the numeric Euler check evaluates a derivative program (~3x larger): skipped for very large programs
+                body = body.lines().filter(|l| !l.contains("\"EULER\"")).collect::<Vec<_>>().join("\n") + "\n";
+            }
             v.push_str(&body.replace("P_", &format!("{p}_")).replace("\"P\"", &format!("\"{p}\"")));
             // scaled differential trace: a scale-dependent value that escaped through `.re()` into f64
             // arithmetic shows up as a constant that differs (or as a different shape)
